@@ -72,6 +72,16 @@ def gen_case(rng, size):
         elif r < 0.96:
             ops.append('clear')
             present.clear()
+        elif r < 0.965:
+            # update() / fsIndex(source) from a dict or from another fsIndex sharing prefixes
+            kvs = []
+            for _ in range(rng.randrange(1, 6)):
+                k = rng.choice(sorted(present)) + rng.choice([0, 1, 2]) if present and rng.random() < 0.5 else key()
+                k = min(k, 2 ** 64 - 1)
+                kvs.append((k, rng.randrange(2 ** 20)))
+            ops.append('update %s %s' % (rng.choice(['dict', 'fs', 'fs']),
+                                         ','.join('%s:%d' % (hex8(k), v) for k, v in kvs)))
+            present.update(k for k, _ in kvs)
         elif r < 0.97:
             ops.append('set %s %d' % (hex8(key()), 2 ** 64 + rng.randrange(3)))   # malformed stream
         else:
@@ -135,6 +145,21 @@ def run_real(ops, tmpdir):
             elif t[0] == 'clear':
                 ix.clear()
                 r = 'ok'
+            elif t[0] == 'update':
+                pairs = [(p64(int(a, 16)), int(b)) for a, b in (kv.split(':') for kv in t[2].split(','))]
+                if t[1] == 'dict':
+                    ix.update(dict(pairs))
+                else:
+                    other = fsIndex()
+                    for k, v in pairs:
+                        other[k] = v
+                    ix.update(other)
+                    # the two indexes must share nothing afterwards: disturb the source
+                    for k, v in pairs:
+                        other[k[:6] + b'\xff\xfd'] = 77
+                        other[k] = v + 1
+                    other.clear()
+                r = 'ok'
             elif t[0] in ('minkey', 'maxkey'):
                 f = ix.minKey if t[0] == 'minkey' else ix.maxKey
                 r = (f() if len(t) == 1 else f(p64(int(t[1], 16)))).hex()
@@ -194,6 +219,11 @@ def run_oracle(ops):
         elif t[0] == 'clear':
             d.clear()
             r = 'ok'
+        elif t[0] == 'update':
+            for kv in t[2].split(','):
+                a, b = kv.split(':')
+                d[int(a, 16)] = int(b)
+            r = 'ok'
         elif t[0] == 'minkey':
             if len(t) == 1:
                 r = hex8(ks[0]) if ks else 'err:ValueError'
@@ -241,6 +271,9 @@ def main(argv=None):
         ['set 0000000000000005 1', 'maxkey 0000000000000003', 'set ffffffffffff0001 1',
          'minkey ffffffffffff0002'],
     ]
+    corpus.append(['set 0000000000000001 1', 'set 0000000000000002 2', 'set 0000000000000003 3',
+                   'update fs 0000000000000002:20,0000000000000007:70', 'items', 'len',
+                   'set 0000000000000008 8', 'del 0000000000000007', 'items', 'saveload 9', 'items'])
     if ck.replay_path:
         import json
         with open(ck.replay_path) as f:
@@ -301,6 +334,9 @@ def nontrivial(ops):
             present.pop(int(t[1], 16), None)
         elif t[0] == 'clear':
             present.clear()
+        elif t[0] == 'update':
+            for kv in t[2].split(','):
+                present[int(kv.split(':')[0], 16)] = 1
         elif t[0] in ('minkey', 'maxkey') and len(t) == 2:
             pres = {k >> 16 for k in present}
             if len(pres) >= 2 and (int(t[1], 16) >> 16) not in pres:
